@@ -3,8 +3,8 @@
 set -e
 export GOFLAGS=-mod=mod GOPROXY=off GOSUMDB=off GOTOOLCHAIN=local
 cd "$(dirname "$0")/harness"
-go vet ./... 
-go test -count=1 ./... 2>&1 | tail -20
+go vet -tags verif ./...
+go test -tags verif -count=1 ./... 2>&1 | tail -20
 go build -tags verif -o /dev/null ./cmd/emuhost
 go build -tags verif -race -o /dev/null ./cmd/emuhost
 go build -o /dev/null ./cmd/check
